@@ -190,6 +190,7 @@ func (r *Report) RunSharded(n int, args []string) {
 		}(i)
 	}
 	iwg.Wait()
+	r.confirmFresh()
 	for _, name := range order {
 		m := merged[name]
 		if len(stateSets[name]) > 0 {
@@ -223,6 +224,77 @@ func ScratchDir() string {
 		return "/dev/shm"
 	}
 	return os.TempDir()
+}
+
+func clip(s string, n int) string {
+	if len(s) > n {
+		return s[:n] + "..."
+	}
+	return s
+}
+
+// CrossExecutionKeys: prefixes of violation classes whose oracle compares one execution with an earlier one of
+// the same process (differential oracles); a single sequence in a fresh process cannot reproduce them.
+var CrossExecutionKeys []string
+
+// confirmFresh re-runs the choice sequence of every violation an explorer shard reported in a FRESH process
+// (the shard's own five replays run inside the shard process and share whatever process-wide state the
+// execution before them left behind). Per violation class the first sequence that violates again in a fresh
+// process is kept; a class none of whose sequences (at most 3 tried) does is not reported (inconclusive).
+func (r *Report) confirmFresh() {
+	crossExec := func(key string) bool {
+		for _, p := range CrossExecutionKeys {
+			if strings.HasPrefix(key, p) {
+				return true
+			}
+		}
+		return false
+	}
+	r.mu.Lock()
+	vs := r.violations
+	r.mu.Unlock()
+	confirmed, tried := map[string]bool{}, map[string]int{}
+	var keep []*Violation
+	for _, v := range vs {
+		if v.Input != nil || v.Part == "" || v.Stack != "" && len(v.History) == 0 || v.Replays < 5 || crossExec(v.Key) {
+			keep = append(keep, v) // not a choice-sequence violation of Explore (or already not believed)
+			continue
+		}
+		if confirmed[v.Key] {
+			continue
+		}
+		if tried[v.Key] >= 3 {
+			continue
+		}
+		tried[v.Key]++
+		cj, _ := json.Marshal(v.Choices)
+		if v.Choices == nil {
+			cj = []byte("[]")
+		}
+		cmd := exec.Command(os.Args[0], "exec-one", r.Property, v.Part, string(cj))
+		cmd.Env = append(os.Environ(), "GOMAXPROCS=1", "VERIF_SHARD=", "GOTRACEBACK=single")
+		if strings.HasSuffix(os.Args[0], ".test") {
+			cmd = exec.Command(os.Args[0], os.Args[1:]...)
+			cmd.Env = append(os.Environ(), "GOMAXPROCS=1", "VERIF_SHARD=", "GOTRACEBACK=single", "VERIF_EXEC_ONE="+v.Part+"|"+string(cj))
+		}
+		out, err := cmd.CombinedOutput()
+		code := 0
+		if ee, ok := err.(*exec.ExitError); ok {
+			code = ee.ExitCode()
+		} else if err != nil {
+			code = 3
+		}
+		switch {
+		case code == 0 && strings.Contains(string(out), "violation:") == false:
+			r.Inconclusive(fmt.Sprintf("violation %q (part %s, choices %v) violated 5/5 times inside its shard process but not in a fresh process; not reported. It said: %s", v.Key, v.Part, v.Choices, clip(v.Message, 6000)))
+		default: // violates again (1), crashes or hangs (other codes), or cannot be re-run (3): keep it
+			confirmed[v.Key] = true
+			keep = append(keep, v)
+		}
+	}
+	r.mu.Lock()
+	r.violations = keep
+	r.mu.Unlock()
 }
 
 // isolate re-runs the sequence a dead/hung shard was executing, 5 times, each
